@@ -345,7 +345,14 @@ class FullEngine(Engine):
             def fits(sp):
                 missing = [p for i, (p, _) in enumerate(sp.params) if i >= given and p not in kws]
                 return all(p in sp.defaults for p in missing)
-            ok = [sp for sp in cands if fits(sp)]
+            def types_fit(sp):
+                for a, (pn, pt) in zip(c.args, sp.params):
+                    at = self.expr_type_peek(a, st)
+                    if at is None or pt is None: continue
+                    if isinstance(at, TObj) and at.as_list and isinstance(pt, TList): continue
+                    if at != pt: return False
+                return True
+            ok = [sp for sp in cands if fits(sp) and types_fit(sp)]
             if not ok: raise Unsupported('no overload of %s fits the call %s' % (name, ast.unparse(c)[:60]))
             return self.call_contract(ok[0], c, None, st)
         raise Unsupported('call of ' + name)
@@ -365,6 +372,7 @@ class FullEngine(Engine):
             if getattr(v, 'none', False) is not False: raise Unsupported('isinstance on maybe-None')
             return PV(BOOL, BoolVal(bool(table[cls](t))))
         if cls == 'str' and isinstance(t, TVal): return PV(BOOL, IsStr(v.term))
+        if isinstance(t, TVal) and cls in self.spec.isinstance_preds: return PV(BOOL, self.spec.isinstance_preds[cls](v.term))
         raise Unsupported('isinstance(%s, %s)' % (ast.unparse(c.args[0]), cls))
 
     def any_all(self, c, name, st):
